@@ -22,6 +22,8 @@ import (
 	"verif/internal/model"
 )
 
+var defaultIndexWorkers = conf.IndexWorkers
+
 func init() {
 	// In-process checks do not observe durability below the page cache; skipping fsync
 	// makes a case ~10x cheaper.  Crash checks run in child processes that set it back.
@@ -42,6 +44,12 @@ type StoreOpts struct {
 	CacheCleanupMs   int    `json:"cache_cleanup_ms,omitempty"`
 	// NoMaintLoop: maintenance runs only when the harness calls FM.VerifMaintenance
 	NoMaintLoop bool `json:"no_maint_loop,omitempty"`
+	// AggLimits: the aggregation limits a production store runs with by default
+	// (--agg-max-group-tokens 2000, --agg-max-field-tokens 1000000, --agg-max-fraction-tids
+	// 100000); zero limits (what the repository's tests use) take other code paths.
+	AggLimits bool `json:"agg_limits,omitempty"`
+	// IndexWorkers: conf.IndexWorkers for fractions created by this store (0 = NumCPU)
+	IndexWorkers int `json:"index_workers,omitempty"`
 }
 
 type Store struct {
@@ -77,6 +85,9 @@ func (o StoreOpts) config(dir string) *fracmanager.Config {
 	if o.CacheCleanupMs > 0 {
 		c.CacheCleanupDelay = time.Duration(o.CacheCleanupMs) * time.Millisecond
 	}
+	if o.AggLimits {
+		c.Fraction.Search.AggLimits = frac.AggLimits{MaxFieldTokens: 1000000, MaxGroupTokens: 2000, MaxTIDsPerFraction: 100000}
+	}
 	c.Fraction.SkipSortDocs = o.SkipSortDocs
 	c.Fraction.KeepMetaFile = o.KeepMetaFile
 	if o.ZstdLevel != 0 {
@@ -94,6 +105,13 @@ func (o StoreOpts) config(dir string) *fracmanager.Config {
 func OpenStore(dir string, o StoreOpts) (*Store, error) {
 	if err := os.MkdirAll(dir, 0o755); err != nil {
 		return nil, err
+	}
+	iw := defaultIndexWorkers
+	if o.IndexWorkers > 0 {
+		iw = o.IndexWorkers
+	}
+	if conf.IndexWorkers != iw { // a package variable of seq-db: written only when a case asks for it
+		conf.IndexWorkers = iw
 	}
 	fm := fracmanager.NewFracManager(o.config(dir))
 	if err := fm.Load(context.Background()); err != nil {
